@@ -51,7 +51,10 @@ def run(tier, seed):
             {"prog": "exit", "strategy": "random", "runs": (60, 800), "args": ["--size", "150000", "200000", "--ownfree", "1"], "env": dict(app, MIMALLOC_PURGE_DELAY="2000", MIMALLOC_ABANDONED_RECLAIM_ON_FREE="1")},
             {"prog": "exit", "strategy": "random", "runs": (80, 1000), "args": ["--size", "150000", "200000", "--ownfree", "1", "--rate", "3"], "env": dict(app, MIMALLOC_PURGE_DELAY="2000")},
             {"prog": "exit", "strategy": "pct", "runs": (40, 600), "args": ["--size", "150000", "200000", "--ownfree", "1"], "env": {"MIMALLOC_PURGE_DELAY": "2000", "MIMALLOC_DISALLOW_ARENA_ALLOC": "1"}},
-            {"prog": "arena", "strategy": "random", "runs": (60, 800), "args": ["--rate", "3"], "env": {"MIMALLOC_PURGE_DELAY": "0"}}]
+            {"prog": "arena", "strategy": "random", "runs": (60, 800), "args": ["--rate", "3"], "env": {"MIMALLOC_PURGE_DELAY": "0"}},
+            # a limit on the segments per thread: a thread at its limit visits abandoned segments without adopting them (they must stay abandoned)
+            {"prog": "exit", "strategy": "random", "runs": (80, 1000), "args": ["--rate", "3", "--size", "150000", "200000"], "env": {"MIMALLOC_TARGET_SEGMENTS_PER_THREAD": "1"}},
+            {"prog": "exit", "strategy": "pct", "runs": (40, 600), "args": ["--size", "600000", "1048576"], "env": {"MIMALLOC_TARGET_SEGMENTS_PER_THREAD": "2"}}]
     V, cov2 = concfam.run_conc("C13", tier, seed, jobs, {"DestructiveAvoidsLive", "LiveAccessible", "ContentsKept.gen", "ContentsKept.bytes", "NoOverlap", "ZeroOK", "Invariant.Inv"},
                                mc=("MiSegment", ("MiSegment_mc.cfg", "MiSegment_mc.cfg")), guided_progs=(), V=V, finish=False)
     cov["concurrent_purging"] = {k: cov2[k] for k in ("traces_validated_against_impl", "trace_events_validated", "programs", "strategies") if k in cov2}
